@@ -143,6 +143,7 @@ def run(prop):
         corr.h.close()
         corr.h = lad.h  # share one harness process
         links = {}
+        tags = {}
         link_fail = []
         for path, _ in files:
             if "/corpus/regress/" in path:
@@ -191,6 +192,8 @@ def run(prop):
                 ln = lad.ask("links %s" % path)
                 key_ = "OK" if ln and ln.startswith("OK") else (ln or "none").split(" ")[0]
                 links[key_] = links.get(key_, 0) + 1
+                for tag_ in (ln or "").split()[1:] if ln and ln.startswith("OK") else []:
+                    tags[tag_] = tags.get(tag_, 0) + 1
                 if ln and ln.startswith("FAIL") and not main_called:
                     link_fail.append({"file": path, "links": ln[:200]})
             # typing / scoping oracles on the implementation's output: the FIRST ill-typed stage is to blame
@@ -235,6 +238,7 @@ def run(prop):
         chk.notes["pass_outcomes"] = corr.stats
         if prop == "C12":
             chk.notes["links_histogram"] = links
+            chk.notes["links_tags"] = tags
             chk.obligation("links:hypotheses of C12_chain hold on every accepted program with a valid main (decidable content)", "correspondence", not link_fail, json.dumps(link_fail[:3])[:400])
             if link_fail:
                 proofs_ok = False
